@@ -347,6 +347,74 @@ void t_printf_int(Src &s, Case &c)
     run_and_check(c, b, s.below(4) == 0);
 }
 
+// ------------------------------------------------------------- wide fields
+// One directive whose width and/or precision is far beyond any small counter (around 256, and 1000..1100),
+// literal or through *; %s arguments of up to 300 characters. Same differential against the host.
+void t_printf_wide(Src &s, Case &c)
+{
+    Built b;
+    b.fmt += gen_literal(s, false);
+    char conv = "diuoxXcs"[s.weighted({4, 2, 3, 2, 3, 2, 2, 4})];
+    unsigned flags = 0;
+    if (s.below(3) != 0)
+        flags = (unsigned)s.below(32) & allowed_flags(conv);
+    auto big = [&]() -> int {
+        switch (s.weighted({3, 2, 2}))
+        {
+        case 0:
+            return (int)s.range(250, 262);
+        case 1:
+            return (int)s.range(41, 600);
+        default:
+            return (int)s.range(1000, 1100);
+        }
+    };
+    int wk = (int)s.weighted({1, 3, 3});
+    int width = wk ? big() : 0;
+    if (wk == 2 && s.below(3) == 0)
+        width = -width;
+    int pk = 0, prec = 0;
+    if (conv != 'c')
+    {
+        pk = (int)s.weighted({2, 0, 3, 3});
+        if (pk)
+            prec = s.below(3) == 0 ? (int)s.range(0, 12) : big();
+    }
+    if (wk == 0 && (pk == 0 || prec <= 12))
+    {
+        wk = 1;
+        width = big();
+    }
+    int len = is_intconv(conv) ? (int)s.weighted({4, 1, 1, 2, 2, 1, 1, 1}) : 0;
+    long long ival = 0;
+    std::string sval;
+    bool unterminated = false;
+    if (is_intconv(conv))
+        ival = gen_int_value(s, len, conv == 'd' || conv == 'i');
+    else if (conv == 'c')
+        ival = s.below(6) == 0 ? 0 : (long long)s.range(1, 255);
+    else
+    {
+        size_t n = (size_t)(s.coin() ? s.range(0, 30) : s.range(250, 300));
+        char c0 = (char)s.range(0x21, 0x7e);
+        for (size_t i = 0; i < n; i++)
+            sval += (char)(0x21 + (c0 - 0x21 + i) % 94);
+        if (pk != 0 && prec >= 0 && (size_t)prec <= n && s.below(3) == 0)
+            unterminated = true;
+    }
+    if (!add_directive(b, c, conv, flags, wk, width, pk, prec, len, ival, sval, unterminated, nullptr, &s))
+        return;
+    b.fmt += gen_literal(s, false);
+    c.log("fmt=\"%s\"", b.fmt.c_str());
+    c.nontrivial = true;
+    c.label("wide_field");
+    run_and_check(c, b, s.below(4) == 0);
+}
+VP_TARGET("printf_wide", t_printf_wide,
+          "one directive of the same grammar with width and/or precision in 250..262, 41..600 or 1000..1100 (literal or through *, "
+          "negative * widths included), %s arguments of up to 300 characters (unterminated when the precision bounds the read); same "
+          "differential against the host; every case non-trivial");
+
 // -------------------------------------------------------------------- grid
 // flags(32) x width{none,1,7,*5,*-5,12} x prec{none,.,.0,.1,.7,.*-1} x len(8) x conv(9) x 8 values
 unsigned __int128 grid_size(int) { return (unsigned __int128)32 * 6 * 6 * 8 * 9 * 8; }
